@@ -24,6 +24,7 @@ CONSTANTS Kind,        \* "cipher" or "mac"
           LongOctets,  \* a few long inputs (octets) for every algorithm and both entry points
           SeqGroups    \* number of same-parameter call sequences per algorithm and entry point
 VARIABLE c
+ZC == JsonDeserialize("zuc_corners.json")          \* frozen corner points of the ZUC arithmetic modulo 2^31-1 (tools/zuccorners)
 Zero(n) == [i \in 1..n |-> 0]
 Ones(n) == [i \in 1..n |-> 255]
 Walk(n, b) == [i \in 1..n |-> IF i = (b \div 8) + 1 THEN 2^(7 - (b % 8)) ELSE 0]      \* bit b (0 = most significant) set
@@ -77,7 +78,14 @@ Sequences(alg) ==
            : g \in 1..SeqGroups, i \in DOMAIN SeqOctets}
 SeqRaw(op, opc) ==
   {GCase(op, 0, KeyPat(g % 3), Zero(4), 0, 0, 32 * SeqWords[i], IF g % 2 = 0 THEN 1 ELSE 3 + g, Gid(0, opc, g), i) : g \in 1..SeqGroups, i \in DOMAIN SeqWords}
-Cases == UNION {Grid(a) \cup Dense(a) \cup Walking(a) \cup Long(a) \cup Sequences(a) : a \in 1..3}
+\* the corner points of the ZUC LFSR arithmetic: algorithm 3 through the per-algorithm function and the wrapper, long enough
+\* for every affected keystream word to reach the output (the corner clocks lie within the first six work rounds)
+Corners ==
+  {Case(op, 3, ZC[i].key, ZC[i].cnt, ZC[i].bearer, ZC[i].dir, n, 2) :
+     i \in {j \in 1..Len(ZC) : ZC[j].kind = (IF Kind = "cipher" THEN "eea3" ELSE "eia3")}, op \in {FnOp, WrOp}, n \in {256}}
+  \cup {Case(FnOp, 3, ZC[i].key, ZC[i].cnt, ZC[i].bearer, ZC[i].dir, 67, 1) :
+     i \in {j \in 1..Len(ZC) : ZC[j].kind = (IF Kind = "cipher" THEN "eea3" ELSE "eia3")}}
+Cases == Corners \cup UNION {Grid(a) \cup Dense(a) \cup Walking(a) \cup Long(a) \cup Sequences(a) : a \in 1..3}
          \cup (IF Kind = "cipher" THEN Raw("GetKeyStream") \cup Raw("Zuc") \cup LongRaw("GetKeyStream") \cup LongRaw("Zuc")
                                         \cup SeqRaw("GetKeyStream", 3) \cup SeqRaw("Zuc", 4) ELSE {})
 Root == Case("root", 0, <<>>, <<>>, 0, 0, 0, 0)
